@@ -83,6 +83,11 @@ package common
 //@ ghost func (r *RollingIndex) Oldest() int { return r.oldest() }
 //@ ghost func (r *RollingIndex) Items() []interface{} { return r.items }
 
+//@ func NewRollingIndexMap(name string, size int) *RollingIndexMap
+//@   requires size >= 2 && size < 4611686018427387904
+//@   modifies nothing
+//@   ensures[fresh] ret0 != nil && __fresh(ret0) && ret0.wf() && ret0.AllStr() && (forall k uint32 :: !__in(k, ret0.mapping))
+
 //@ func (rim *RollingIndexMap) AddKey(key uint32) error
 //@   requires rim != nil && rim.wf()
 //@   ensures[typed]   old(rim.AllStr()) ==> rim.AllStr()
